@@ -10,8 +10,13 @@ package main
 //    request/response pairing, stdin closed at seeded points.
 
 import (
+	"bytes"
+	"fmt"
 	"os"
+	"os/exec"
 	"path/filepath"
+	"strings"
+	"sync"
 
 	. "github.com/evanw/esbuild/verifharness/hlib"
 )
@@ -25,6 +30,73 @@ func repoDir() string {
 	return "/repo"
 }
 
+// In the race child (thorough tier) this process itself is built with -race,
+// and so is the esbuild binary it drives; the stderr of the service children
+// is collected here and scanned for race reports by the parent.
+var raceChild = os.Getenv("C20_RACE_CHILD") == "1"
+var svcStderr = &lockedBuf{}
+
+type lockedBuf struct {
+	mu sync.Mutex
+	b  bytes.Buffer
+}
+
+func (l *lockedBuf) Write(p []byte) (int, error) {
+	l.mu.Lock()
+	defer l.mu.Unlock()
+	if l.b.Len() < 1<<20 {
+		l.b.Write(p)
+	}
+	return len(p), nil
+}
+
+// thorough tier: rebuild this harness and the esbuild binary with the race
+// detector and run the history and service scenarios again under it
+func runUnderRaceDetector(seed uint64, n int, tmp string, st *Stats) {
+	verif := os.Getenv("VERIF_DIR")
+	if verif == "" {
+		verif = "/verif"
+	}
+	hdir := filepath.Join(verif, "harness")
+	gomod, err := os.ReadFile(filepath.Join(hdir, "go.mod"))
+	if err != nil {
+		st.Extra["race"] = "skipped: " + err.Error()
+		return
+	}
+	modfile := filepath.Join(tmp, "race.mod")
+	os.WriteFile(modfile, []byte(strings.Replace(string(gomod), "=> /repo", "=> "+repoDir(), 1)), 0o644)
+	if sum, err := os.ReadFile(filepath.Join(repoDir(), "go.sum")); err == nil {
+		os.WriteFile(filepath.Join(tmp, "race.sum"), sum, 0o644)
+	}
+	exe := filepath.Join(tmp, "c20-race")
+	cmd := exec.Command("go", "build", "-race", "-modfile="+modfile, "-tags", "verif", "-o", exe, "./cmd/c20")
+	cmd.Dir = hdir
+	cmd.Env = append(os.Environ(), "GOFLAGS=-mod=mod", "GOPROXY=off", "GOSUMDB=off", "GOTOOLCHAIN=local", "CGO_ENABLED=1")
+	if out, err := cmd.CombinedOutput(); err != nil {
+		// the race detector needs cgo; say so instead of failing the check
+		st.Extra["race"] = "race build unavailable: " + clip(string(out), 400)
+		st.Note("race-detector-unavailable", "", false)
+		return
+	}
+	outDir := filepath.Join(tmp, "race-out")
+	os.MkdirAll(outDir, 0o755)
+	run := exec.Command(exe, "-seed", fmt.Sprint(seed+7), "-n", fmt.Sprint(n), "-tier", "quick", "-out", outDir)
+	run.Env = append(os.Environ(), "C20_RACE_CHILD=1", "GORACE=halt_on_error=0")
+	var buf bytes.Buffer
+	run.Stdout = &buf
+	run.Stderr = &buf
+	err = run.Run()
+	text := buf.String()
+	if i := strings.Index(text, "WARNING: DATA RACE"); i >= 0 {
+		st.Fail("data-race-detected", map[string]interface{}{"scenario": "race-detector", "seed": seed + 7, "n": n},
+			clip(text[i:], 3000), "no data race under any interleaving")
+	} else if err != nil {
+		st.Fail("race-run-crashed", map[string]interface{}{"scenario": "race-detector", "seed": seed + 7}, clip(text, 2000), "exit 0")
+	}
+	st.Note("race-detector-run", fmt.Sprint(seed), true)
+	st.Extra["race"] = fmt.Sprintf("history and service scenarios re-run with -race (harness and esbuild binary), n=%d: %d bytes of output, no race report", n, len(text))
+}
+
 func runC20(seed uint64, n int, tier string, outDir string) []*Stats {
 	r := NewRng(seed)
 	st := NewStats("c20", seed)
@@ -33,7 +105,7 @@ func runC20(seed uint64, n int, tier string, outDir string) []*Stats {
 	defer os.RemoveAll(tmp)
 
 	// ---- the service process
-	exe, err := buildEsbuild(repoDir(), tmp, false)
+	exe, err := buildEsbuild(repoDir(), tmp, raceChild)
 	if err != nil {
 		st.Fail("esbuild-binary-does-not-build", repoDir(), err.Error(), "go build ./cmd/esbuild succeeds")
 	} else {
@@ -48,8 +120,9 @@ func runC20(seed uint64, n int, tier string, outDir string) []*Stats {
 		// contexts behind the service: directed corpus first, then random clients
 		scenSvcContext(r.U64(), env, 0, "second-dispose")
 		scenSvcContext(r.U64(), env, 1, "cancel-after-dispose")
+		scenSvcContext(r.U64(), env, 2, "rebuild-cancel-dispose-batch")
 		for i := 0; i < nsvc; i++ {
-			scenSvcContext(r.U64(), env, 2+i, "")
+			scenSvcContext(r.U64(), env, 3+i, "")
 		}
 		cf.AddCases("pkt_out_cases", "bytes * Z * bool * value", "check_pkt", env.pktOut)
 		cf.AddCases("pkt_in_cases", "bytes * Z * bool * value", "check_pkt", env.pktIn)
@@ -63,6 +136,16 @@ func runC20(seed uint64, n int, tier string, outDir string) []*Stats {
 	hf.AddCases("trace_cases", "nat * nat * list pevent", "check_trace", cenv.traceCase)
 	if err := os.WriteFile(filepath.Join(outDir, "c20_hist_cases.v"), []byte(hf.String()), 0o644); err != nil {
 		panic(err)
+	}
+
+	if raceChild {
+		// race reports of the service children go to our stderr, where the parent looks for them
+		svcStderr.mu.Lock()
+		os.Stderr.Write(svcStderr.b.Bytes())
+		svcStderr.mu.Unlock()
+	}
+	if tier == "thorough" && !raceChild {
+		runUnderRaceDetector(seed, n/4+10, tmp, st)
 	}
 
 	st.Finish("seeded scenarios (splitmix64 from VERIF_SEED); distinct_nontrivial = distinct (kind, input) pairs")
